@@ -391,6 +391,30 @@ def _mark_reached(e, fields, mutated):
         mutated.add(e.id)
 
 
+def bounded_check(solver, timeout_ms):
+    """solver.check() that really comes back: z3's own timeout is not honoured inside some theory procedures (sequence solver
+    with large length bounds), so a watchdog thread interrupts the context after twice the budget; the answer is then `unknown`
+    (for a feasibility question: treated as feasible, which only adds paths - sound)"""
+    import threading
+    done = threading.Event()
+    ctx = solver.ctx      # the watchdog must not hold the solver: a last reference dropped there would free it from that thread
+
+    def dog():
+        if not done.wait(timeout_ms / 1000.0 * 2 + 1.0):
+            try:
+                ctx.interrupt()
+            except Exception:
+                pass
+    t = threading.Thread(target=dog, daemon=True)
+    t.start()
+    try:
+        return solver.check()
+    except z3.Z3Exception:
+        return z3.unknown
+    finally:
+        done.set()
+
+
 # --------------------------------------------------------------------------- the path executor
 class X:
     """one symbolic path through one function under one contract"""
@@ -487,7 +511,7 @@ class X:
         s.set('timeout', self.FEAS_TIMEOUT_MS)
         s.add(*self.pc)
         s.add(extra)
-        return s.check() != z3.unsat
+        return bounded_check(s, self.FEAS_TIMEOUT_MS) != z3.unsat
 
     def choose(self, n, label='choice'):
         """n-way nondeterministic choice (all alternatives explored)"""
